@@ -77,6 +77,14 @@ def gen_ds(rng, tier):
     cfg['best_effort_memory_usage_reduction'] = True   # momentum only
   n = wpick(rng, [(0, 1), (1, 4), (2, 4), (3, 2)])
   tree = [_wild_shape(rng) for _ in range(n)]
+  if mode == 'sharded' and feat == 'plain' and rng.random() < 0.35:
+    # parameters excluded by size next to small preconditioned ones: the
+    # declared global statistics size must be computed with the same exclusion
+    # rule as the state itself
+    cfg['skip_preconditioning_dim_size_gt'] = pick(rng, [3, 5, 7])
+    cfg['block_size'] = pick(rng, [8, 16])
+    tree.append([pick(rng, [8, 9]), pick(rng, [2, 3])])
+    tree.append([pick(rng, [2, 3]), pick(rng, [2, 3])])
   if feat == 'lobpcg':
     tree = [[pick(rng, [8, 9, 10]), pick(rng, [8, 9, 10])] for _ in range(max(n, 1))]
   if feat in ('lowrank', 'fd') and rng.random() < 0.7:
